@@ -6,6 +6,7 @@ CONSTANTS
     SrvKinds = {"deliver", "cancel", "chclose", "connclose"}
     Faults = {}
     ClientClose = TRUE
+    Compliant = FALSE
     Bug = {}
 SPECIFICATION Spec
 INVARIANTS Pairing NothingAfterClose Released NoStuckCaller SlotsLive OneTerminal
